@@ -49,7 +49,8 @@ theorem pushTail_stackOf (ρ : Ticket → Ticket) (rs : List UOp) (rest : List (
 theorem reconcileStack_stackOf {ρ ρ' : Ticket → Ticket} {a b : Ticket} {rs : List UOp} (rest : List (List UOp))
     (h : ∀ r ∈ rs, reconcileOp a b (fullRen ρ r) = fullRen ρ' r) :
     reconcileStack a b (stackOf ρ rs ++ rest) = stackOf ρ' rs ++ reconcileStack a b rest := by
-  unfold reconcileStack stackOf
+  rw [reconcileStack_eq]
+  unfold stackOf
   rw [List.map_append, List.map_map]
   congr 1
   apply List.map_congr_left
@@ -64,19 +65,19 @@ theorem skel_of_arr {d : Doc} {p : Ticket} {l : List Ticket} (h : absNode d p = 
 /-! ### the history machine on one popped entry -/
 
 theorem undo_of_stack {g : Hist} {r q : UOp} {rest : List (List UOp)} {d' : Doc} (hu : g.undo = [r] :: rest)
-    (hp : r.plain = true) (he : uexecute g.doc g.tw .undoRedo (r.withTs g.next) = .ok (d', some q)) :
+    (hp : r.plain = true) (he : uexecute g.doc noTw .undoRedo (r.withTs g.next) = .ok (d', some q)) :
     (undo g).doc = d' ∧ (undo g).tw = g.tw ∧ (undo g).lamport = g.lamport + 1 ∧ (undo g).undo = rest ∧
     (undo g).redo = [q] :: pushTail g.redo := by
   rw [undo_one hu hp he]
   exact ⟨rfl, rfl, rfl, rfl, push_eq _ _⟩
 
 theorem undo_of_stack_add {g : Hist} {p pv ts0 : Ticket} {cv : UVal} {q : UOp} {rest : List (List UOp)} {d' : Doc}
-    (hu : g.undo = [.add p pv cv ts0] :: rest) (hsub : cv.sub = [])
-    (he : uexecute g.doc g.tw .undoRedo (.add p pv (cv.reid g.next) g.next) = .ok (d', some q)) :
+    (hu : g.undo = [.add p pv cv ts0] :: rest)
+    (he : uexecute g.doc noTw .undoRedo (.add p pv (cv.reid g.next) g.next) = .ok (d', some q)) :
     (undo g).doc = d' ∧ (undo g).tw = g.tw ∧ (undo g).lamport = g.lamport + 1 ∧
     (undo g).undo = reconcileStack cv.id g.next rest ∧
     (undo g).redo = [q] :: pushTail (reconcileStack cv.id g.next g.redo) := by
-  rw [undo_add_entry hu hsub he]
+  rw [undo_add_entry hu he]
   exact ⟨rfl, rfl, rfl, rfl, push_eq _ _⟩
 
 theorem length_after_push {rs rs2 : List UOp} {q : UOp}
